@@ -128,7 +128,7 @@ func runC04(c *eng.Ctx) {
 		}
 		rng := cr.rng(idx)
 		full := k%5 == 4
-		s, m := GenSpec(rng, GenOpts{Want: ClsOK, Specials: true, Values: true, MultiAlias: full, OutGroup: full, MultiOpt: full})
+		s, m := GenSpec(rng, GenOpts{Want: ClsOK, Specials: true, Values: true, MultiAlias: full || k%3 == 1, OutGroup: full, MultiOpt: full, Removes: k%3 == 1})
 		if s == nil {
 			continue
 		}
@@ -441,7 +441,7 @@ func runC07(c *eng.Ctx) {
 		if k%2 == 1 {
 			want = ClsLifetime
 		}
-		s, m := GenSpec(rng, GenOpts{Want: want, Specials: k%3 == 0, Values: true})
+		s, m := GenSpec(rng, GenOpts{Want: want, Specials: k%3 == 0 || k%4 >= 2, Values: true, Removes: k%4 >= 2, MultiAlias: k%4 >= 2})
 		if s == nil {
 			continue
 		}
@@ -693,7 +693,7 @@ func runC08(c *eng.Ctx) {
 		}
 		rng := cr.rng(idx)
 		full := k%6 == 5
-		s, m := GenSpec(rng, GenOpts{Want: ClsOK, Specials: true, Values: k%4 == 0, MultiAlias: full, OutGroup: full, MultiOpt: full})
+		s, m := GenSpec(rng, GenOpts{Want: ClsOK, Specials: true, Values: k%4 == 0, MultiAlias: full || k%3 == 2, OutGroup: full, MultiOpt: full, Removes: k%3 == 2})
 		if s == nil {
 			continue
 		}
